@@ -975,7 +975,12 @@ def run(ctx: Ctx):
     nat, ref = ObjWorld(mods, False), ObjWorld(mods, True)
     nat.twins = ref.twins = True
     LB = 3 if ctx.thorough else 2
-    seqs = list(itertools.product(alphabet, repeat=LB))
+    # the min / max / mean operations (the last six) enter the exhaustive product as pairs only (with every operation, in
+    # both orders): a process-wide memo shows on the second call
+    late = [o for o in alphabet if o[0] == "tmax" and o[2] is not None]
+    core_alphabet = [o for o in alphabet if o not in late]
+    seqs = list(itertools.product(core_alphabet, repeat=LB))
+    seqs += [(x, y) for x in late for y in alphabet] + [(y, x) for x in late for y in core_alphabet]
     if not ctx.thorough:
         pass
     # read – change – read again, for every reading and every changing operation (and through a row view)
